@@ -71,6 +71,18 @@ theorem c14_roundtrip (pre post : List Char) :
   have h := roundtrip_aux pre post 0 0 0
   simpa [Impl.positionToOffset, Impl.offsetToLineCol] using h
 
+/-- The round trip in the words of the property statement: for every text `s` and every byte
+offset `o` that is a character boundary of `s` (`str::is_char_boundary`). -/
+theorem c14_roundtrip_boundary (s : List Char) (o : Nat) (h : Impl.isCharBoundary s o = true) :
+    Impl.positionToOffset s (Impl.offsetToLineCol s o).1 (Impl.offsetToLineCol s o).2 = some o := by
+  simp only [Impl.isCharBoundary] at h
+  cases hp : Impl.takeBytes o s with
+  | none => simp [hp] at h
+  | some pre =>
+    obtain ⟨post, h1, h2⟩ := takeBytes_some s o pre hp
+    subst h1; subst h2
+    exact c14_roundtrip pre post
+
 /-- **Positions in answers refer to the editor's text (clause "every position-carrying answer …
 refers to the editor's text", conversion part).**  For every text with `\n`/`\r\n` line ends and
 every character boundary `len8 pre` that is not between the `\r` and `\n` of a line end, the
@@ -118,6 +130,12 @@ example :
     Spec.applyChange (encode16 ['😀', 'x']) (.range 0 2 0 2 (encode16 ['y'])) =
       some (encode16 ['😀', 'y', 'x']) ∧
     Impl.applyChange ['😀', 'x'] (.range 0 2 0 2 ['y']) = .ok ['😀', 'y', 'x'] := by decide
+
+/-- `c14_roundtrip_boundary`: offsets 0, 4 (after `😀`), 6 (after `é`) and 7 are boundaries of
+`"😀éx"`, offsets 1–3 and 5 are not. -/
+example :
+    [0, 1, 2, 3, 4, 5, 6, 7, 8].map (Impl.isCharBoundary ['😀', 'é', 'x']) =
+      [true, false, false, false, true, false, true, true, false] := by decide
 
 /-- `c14_emit` behind an astral character on a CRLF line: the server says (1, 3) for the offset of
 `x` in `"a\r\n😀éx"`, and that is where the editor finds it. -/
